@@ -6,6 +6,8 @@ def run_retr(chk, tiers, judge=None, replay=None, chunk=80):
     opts = {'axes': 'all' if chk.thorough else 'quick'}
     rp = vcheck.Replayer(binary, seed=chk.seed, opts=opts, chunk=chunk, timeout_per_line=60)
     if replay is not None:
+        if replay.get('_opts'):
+            rp = vcheck.Replayer(binary, seed=chk.seed, opts=replay['_opts'], chunk=chunk, timeout_per_line=120)
         v = rp.single(replay)
         chk.judged(replay, n=v.get('n', 1))
         if v.get('v') != 'ok':
@@ -21,6 +23,24 @@ def run_retr(chk, tiers, judge=None, replay=None, chunk=80):
             raise vcheck.MachineryError('no case emitted by ' + t)
         chk.note_tlc(run)
         chk.absorb(recs, verdicts, rp)
+    # the same tables with the request in another unit than the dimension (a sample of the cases): one request unit against
+    # different dimension units and the mirrored pair, one after the other in one process - the selected elements must not change
+    UNIT_PAIRS = [['s', 'ms', 1000.0, 0.001], ['ks', 'ms', 1e6, 1e-6], ['s', 'ms', 1000.0, 0.001], ['ms', 's', 0.001, 1000.0]]
+    opts2 = dict(opts, dim_unit='s', tag_unit='ms', scale=1000.0, factor=0.001, unit_pairs=UNIT_PAIRS)
+    rp2 = vcheck.Replayer(binary, seed=chk.seed, opts=opts2, chunk=chunk, timeout_per_line=120)
+    stride = 2 if chk.thorough else 5
+    for t in tiers:
+        run = vcheck.TlcRun('MC_NixRetrieval', 'MC_NixRetrieval_%s.cfg' % t, workers=8, coverage=False)
+        def src():
+            for k, r in enumerate(run):
+                if (k + chk.seed) % stride == 0 and (judge is None or judge(r)):
+                    r['_opts'] = opts2
+                    yield r
+        recs, verdicts = rp2.run(src())
+        run.require_ok()
+        chk.note_tlc(run)
+        chk.absorb(recs, verdicts, rp2)
+    chk.extra['unit_pairs_pass'] = {'pairs': UNIT_PAIRS, 'stride': stride}
     chk.exhaustive = True
     chk.traces_validated = len(chk.distinct)
     chk.extra['concrete_axes'] = opts['axes']
